@@ -3,7 +3,7 @@
    correspondence and by the moved-argument runs of checks/c02.py).  `app g` moves a point, `rot g` a direction. *)
 From Coq Require Import Reals List QArith.
 From OM Require Import Base.Ops Base.Vec3 Base.OpsR Base.Rigid Geom.Kernels Geom.Quadrature
-                       Geom.RigidKernels Geom.RigidDecisions Geom.GaussSums.
+                       Geom.RigidKernels Geom.RigidDecisions Geom.GaussSums Geom.Assembly Geom.RigidAssembly.
 Local Open Scope R_scope.
 
 (* ---- rigid maps -------------------------------------------------------------------------------------------- *)
@@ -220,15 +220,30 @@ Theorem domain_lookup_invariant : forall g p ds k,
 Proof. exact first_domain_rigid. Qed.
 Print Assumptions domain_lookup_invariant.
 
-Theorem dist_point_interface_argmin_invariant : forall g (dist dist' : @tri R -> R) ts,
+Theorem dist_point_interface_argmin_invariant : forall g (dist dist' : @RigidDecisions.tri R -> R) ts,
   (forall t, dist' (move_tri g t) = dist t) ->
   argmin_first OpsR (map dist' (map (move_tri g) ts)) = argmin_first OpsR (map dist ts).
 Proof. exact nearest_triangle_rigid. Qed.
 Print Assumptions dist_point_interface_argmin_invariant.
 
-Theorem orientation_repair_probe_independent : forall (oms : list (R * list (@tri R))) (inside : V3 -> Prop),
+Theorem orientation_repair_probe_independent : forall (oms : list (R * list (@RigidDecisions.tri R))) (inside : V3 -> Prop),
   (forall p q, inside p -> inside q -> interface_solid_angle OpsR p oms = interface_solid_angle OpsR q oms) ->
   forall (decide : R -> bool) p q, inside p -> inside q ->
   decide (interface_solid_angle OpsR p oms) = decide (interface_solid_angle OpsR q oms).
 Proof. exact orientation_probe_independent. Qed.
 Print Assumptions orientation_repair_probe_independent.
+
+(* ---- assembly level (C10's model of Details::HeadMatrix + deflate, kernels as parameters) ------------------- *)
+(* the assembly reads coordinates only through dot products of edge vectors (BlocksBase::N): with the kernel values
+   Sk, Dk and the areas of the moved frame equal to those of the original frame (S_entry_invariant, D_entry_invariant,
+   triangle_area_invariant) every entry of the head matrix is the same *)
+Theorem headmat_entries_invariant : forall g (pos : N -> R * R * R) (area : N -> R) geo K Sk Dk i j,
+  mget OpsR (headmat OpsR K (moved_pos g pos) area Sk Dk geo) i j = mget OpsR (headmat OpsR K pos area Sk Dk geo) i j.
+Proof. exact headmat_entries_moved. Qed.
+Print Assumptions headmat_entries_invariant.
+
+Theorem headmat_N_edge_products_invariant : forall g pos t1 v1 t2 v2,
+  Assembly.dot OpsR (CB OpsR (moved_pos g pos) t1 v1) (CB OpsR (moved_pos g pos) t2 v2)
+  = Assembly.dot OpsR (CB OpsR pos t1 v1) (CB OpsR pos t2 v2).
+Proof. exact CB_dot_moved. Qed.
+Print Assumptions headmat_N_edge_products_invariant.
